@@ -75,13 +75,38 @@ type KnownFinding struct {
 	Property string `json:"property"`
 	Rule     string `json:"rule"`
 	Key      string `json:"key"`
-	What     string `json:"what"`
-	Input    string `json:"input,omitempty"`
-	Commit   string `json:"commit,omitempty"`
+	// alternatively: every finding of the rule whose key starts with KeyPrefix and whose set of
+	// differing terms ({...} at the end of the key) includes all of CoreIncludes. This pins a finding
+	// to the construct that causes it; a failure that does not involve those terms is still reported.
+	KeyPrefix    string   `json:"key_prefix,omitempty"`
+	CoreIncludes []string `json:"core_includes,omitempty"`
+	What         string   `json:"what"`
+	Input        string   `json:"input,omitempty"`
+	Commit       string   `json:"commit,omitempty"`
 }
 
 type KnownFile struct {
 	Findings []KnownFinding `json:"findings"`
+}
+
+func (k KnownFinding) matches(key string) bool {
+	if k.Key != "" && k.Key == key {
+		return true
+	}
+	if k.KeyPrefix == "" || len(k.CoreIncludes) == 0 || !strings.HasPrefix(key, k.KeyPrefix) {
+		return false
+	}
+	i := strings.LastIndex(key, "{")
+	if i < 0 || !strings.HasSuffix(key, "}") {
+		return false
+	}
+	core := "," + key[i+1:len(key)-1] + ","
+	for _, t := range k.CoreIncludes {
+		if !strings.Contains(core, ","+t+",") {
+			return false
+		}
+	}
+	return true
 }
 
 func loadKnown(path string) KnownFile {
@@ -163,7 +188,7 @@ func (r *Report) Finish(verifDir string, known KnownFile, only *Obligation) int 
 		}
 		matched := false
 		for _, k := range known.Findings {
-			if k.Status == "known" && k.Property == r.Prop && k.Rule == o.Rule && k.Key == o.Key {
+			if k.Status == "known" && k.Property == r.Prop && k.Rule == o.Rule && k.matches(o.Key) {
 				matched = true
 				o.Known = k.What
 				break
